@@ -33,6 +33,6 @@ theorem no_fault_of_tablesOK {T : Tables} (hT : TablesOK T) (cfg : Cfg) (chunks 
 
 /-- non-vacuity: an input on which the machine does return an error (`[}` at 1:2) -/
 example : ∃ e, run refTables {} [[91, 125]] = .error e ∧ e.kind.isFault = false :=
-  ⟨{ line := 1, col := 2, kind := .objClose }, by decide +kernel, rfl⟩
+  ⟨{ line := 1, col := 2, kind := .objClose }, by rfl, rfl⟩
 
 end OjgVerif.C06
